@@ -136,6 +136,11 @@ def run(tier, seed):
                            "clauses": f.get("clauses"), "record": f, "behaviour": index.get(_key(f)), "signature": sig})
     res.extra["distinct_violation_signatures"] = dict(seen)
     stack_honesty(res)
+    # the data-free protocol (spec/Runtime.tla: count = minimum over the applied steps, no count above the set size, the
+    # missing inverse of a one-way operator = 0) on the repository's own test suite, recorded through the hooks
+    import rtlib
+    rtlib.check_model(res, "quick")
+    rtlib.check_repo_tests(res)
     return res.finish()
 
 
